@@ -174,6 +174,7 @@ type Report struct {
 	Explanation string
 	Sweep       string
 	AllowFile   string
+	renamed     map[string]bool
 }
 
 func indent(s string) string {
